@@ -14,7 +14,7 @@ TRUST = ('trusted base: the report parsers; MASTER_DB as data; version availabil
 TECHNIQUE = 'deterministic simulation as the end-to-end observation point; history check over one report against the database-as-data'
 LEVEL = 'exploration'
 BUDGET = {'quick': 200, 'thorough': 2400}
-NCASES = {'quick': 500, 'thorough': 9000}
+NCASES = {'quick': 1000, 'thorough': 9000}
 RULE = ('cases: (product, version around a first-appeared version, patch suffix) x seeded advertised lists. non-trivial: recognised or unrecognised software with a non-empty rating '
         'set; distinct by (product, version, advertised-set hash).')
 ASSUMPTIONS = ['"outside the operator\'s control" = the report carries the OpenSSH 2048-bit GEX fallback note for that algorithm',
